@@ -17,6 +17,7 @@ import (
 
 	"verif/harness/gate"
 	"verif/harness/peers"
+	"verif/harness/rpcenv"
 	"verif/harness/tr"
 )
 
@@ -28,9 +29,7 @@ import (
 func init() {
 	drivers["c09"] = runC09
 	drivers["c10"] = runC10
-	socket.RegisterTransport()
-	udp.RegisterTransport()
-	websocket.RegisterTransport()
+	rpcenv.Register()
 }
 
 var muxPayloadRe = regexp.MustCompile(`c(\d+)-n(\d+)`)
